@@ -13,13 +13,16 @@ import threading
 
 from check import Result
 from vlib.shrink import ddmin
+from props import c19_server
 
 META = {
     'level_text': 'Theorems for all equipment ids, versions, descriptions, interface lists and all datagram sequences: '
                   'message_le_508, truncation_on_char_boundary (+ description_kept_when_it_fits, truncation_minimal), '
                   'message_fields (the Spec\'s own UTF-8 decoder and JSON reader recover exactly the identity, the port and the '
                   'description sent from the produced bytes), disabled_iff_identity_too_long, answers_iff_discover, '
-                  'responder_total, run_satisfies_spec (the whole run meets the monitor `RunOK`).  The model is tied to '
+                  'responder_total, run_satisfies_spec (the whole run meets the monitor `RunOK`), announced_ports_are_served (every '
+                  'round of every run of Server.run, any restarts and start failures: announceable ports were bound by TCP '
+                  'interfaces started in that round), one_responder_per_round.  The model is tied to '
                   'frappy/protocol/discovery.py by regenerated tables (limit, recvfrom size, message skeleton, except clause) and a '
                   'byte-for-byte correspondence run on the real UDPListener; the Lean monitors judge every implementation trace.',
     'level_note': 'Trusted: Lean kernel + axioms propext/Classical.choice/Quot.sound; json.loads / bytes.decode / json.dumps of the '
@@ -37,7 +40,8 @@ META = {
         'str.encode("utf-8") / bytes.decode("utf-8")',
         'json.loads',
         'socket.recvfrom truncating a datagram to the buffer size',
-        'frappy.server.Server building the interface list handed to UDPListener (`<scheme>://<port>` strings)',
+        'Server.run: the 12 s start-up timeout (an interface coming up later is not announced), thread scheduling of the '
+        'interface threads (order and outcome of the start attempts are oracles), TCPServer / socketserver binding',
     ],
     'assumptions': [
         'equipment id, version and description are str without lone surrogates (those cannot be encoded to UTF-8 at all)',
@@ -529,6 +533,116 @@ def describe(case, obs, v):
             f'listener={v["listener"]} run={v["run"]}')
 
 
+# ----------------------------------------------------------------------------------------
+# the server part: real Server.run() with restarts and bind failures (see c19_server.py)
+# ----------------------------------------------------------------------------------------
+SERVER_CATALOGUE = [
+    {'ifaces': ['free', 'free'], 'rounds': [[], [1], []]},            # a port is taken during the restart, later free again
+    {'ifaces': ['free', 'free', 'free'], 'rounds': [[2], [0], [1, 2]]},
+    {'ifaces': ['free', 'zero'], 'rounds': [[], [0]]},                # tcp://0: the system chooses the port
+]
+
+
+def gen_server_case(rng):
+    n = rng.choice([2, 2, 3])
+    kinds = ['free'] * n
+    if rng.random() < 0.3:
+        kinds[rng.randrange(n)] = 'zero'
+    rounds = []
+    for _ in range(rng.choice([2, 3, 3, 4])):
+        blocked = [i for i in range(n) if kinds[i] == 'free' and rng.random() < 0.4]
+        if len(blocked) == n:
+            blocked.pop(rng.randrange(len(blocked)))
+        rounds.append(blocked)
+    return {'ifaces': kinds, 'rounds': rounds}
+
+
+def server_requests(obs):
+    """driver lines for one server run: the model of the rounds, and one judgement per round"""
+    rounds = []
+    for r in obs['rounds']:
+        if r.get('ended'):
+            rounds.append([[[cps(s), p], None] for s, p in r['configured']])
+            continue
+        started = [[[cps(s), p], b] for s, p, b in r['reported']]
+        rep = {(s, p) for s, p, _ in r['reported']}
+        failed = [[[cps(s), p], None] for s, p in r['configured'] if (s, p) not in rep]
+        rounds.append(started + failed)
+    reqs = [{'p': 'C19', 'k': 'server_rounds', 'id': cps(c19_server.EQ_ID), 'version': cps('v0.0.0-c19'),
+             'desc': cps('server part of C19'), 'rounds': rounds}]
+    for r in obs['rounds']:
+        if r.get('ended'):
+            continue
+        reqs.append({'p': 'C19', 'k': 'judge_server_round', 'served': r['served'], 'listener': r['listener'],
+                     'answers': r['answers'] or [], 'answered': r['answers'] is not None,
+                     'live': [p for l in r['live'] for p in l]})
+    return reqs
+
+
+def evaluate_server(ctx, case):
+    obs = c19_server.impl_server({'ifaces': case['ifaces'], 'rounds': case['rounds']})
+    ans = ctx.driver.batch(server_requests(obs))
+    for x in ans:
+        if 'driver_error' in x:
+            raise RuntimeError(f'driver error: {x}')
+    live_rounds = [r for r in obs['rounds'] if not r.get('ended')]
+    model = ans[0]['rounds']
+    impl_view = [{'interfaces': [[cps(s), p, b] for s, p, b in r['reported']], 'live': r['live']} for r in live_rounds]
+    model_view = [{'interfaces': m['interfaces'], 'live': m['live']} for m in model[:len(live_rounds)]]
+    verdicts = ans[1:]
+    sigs = []
+    for i, v in enumerate(verdicts):
+        if not v['ok']:
+            sigs.append(('C19:server:' + v['why'], i))
+    return obs, {'model': model_view, 'impl': impl_view, 'verdicts': verdicts, 'sigs': sigs}
+
+
+def describe_server(case, obs, i):
+    r = [x for x in obs['rounds'] if not x.get('ended')][i]
+    return (f'Server.run with interfaces {[p for _, p in r["configured"]]}, round {i} (ports of interfaces {r["blocked"]} taken by '
+            f'somebody else): served={r["served"]} server.interfaces={[[p, b] for _, p, b in r["reported"]]} '
+            f'responder of this round announces {r["listener"]}, responders running {r["live"]}, ports in UDP answers '
+            f'{sorted(set(r["answers"] or []))}')
+
+
+def run_server_part(ctx, res):
+    cases = []
+    cdir = os.path.join(ctx.verif, 'corpus', 'C19')
+    if os.path.isdir(cdir):
+        for fn in sorted(os.listdir(cdir)):
+            c = json.load(open(os.path.join(cdir, fn)))
+            if c['case'].get('kind') == 'server':
+                cases.append(c['case'])
+    cases += [dict(c, kind='server') for c in SERVER_CATALOGUE]
+    for _ in range(ctx.budget(1, 14)):
+        cases.append(dict(gen_server_case(ctx.rng), kind='server'))
+    seen = set()
+    for case in cases:
+        key = json.dumps(case, sort_keys=True)
+        if key in seen:
+            continue
+        seen.add(key)
+        obs, v = evaluate_server(ctx, case)
+        res.evaluations += 1
+        res.traces += len(v['verdicts'])
+        res.count('server.runs')
+        res.count('server.rounds', len(v['verdicts']))
+        for r in obs['rounds']:
+            if not r.get('ended'):
+                res.count('server.round.failed-starts=%d' % (len(r['configured']) - len(r['reported'])))
+        if any(len(r['configured']) > len(r.get('reported', [])) for r in obs['rounds'][1:] if not r.get('ended')):
+            res.nontriv(case)
+        if not any(s.get('kind') == 'server' for s in res.samples):
+            res.samples.append({'kind': 'server', 'case': case,
+                                'rounds': [{k: r.get(k) for k in ('blocked', 'served', 'listener', 'live')} for r in obs['rounds']]})
+        if ctx.model_ok and v['model'] != v['impl']:
+            res.disagreements.append({'case': case, 'what': 'server rounds', 'model': v['model'], 'impl': v['impl']})
+        for sig, i in v['sigs'][:1]:
+            small = dict(case, rounds=case['rounds'][:i + 1])       # the rounds up to the failing one
+            res.violations.append({'sig': sig, 'what': sig + ': ' + describe_server(case, obs, i), 'case': small,
+                                   'detail': {'original_case': case, 'round': i}})
+
+
 def run(ctx):
     res = Result()
     res.rule = ('listener x datagram sequence on the real UDPListener (fake socket).  Listeners: per character class (ASCII, 2/3/4-byte, '
@@ -537,14 +651,19 @@ def run(ctx):
                 'catalogue of requests (plain, spaced, escaped, duplicate keys, padded to 1024 and beyond) and hostile ones (invalid/'
                 'truncated/overlong UTF-8, BOM, UTF-16, every JSON kind, nested 512 deep, 1024..4000 bytes), random bytes, damaged '
                 'requests; every sequence ends with a valid request.  non-trivial = the responder is enabled and the case has a '
-                'truncated non-empty description, or an ignored non-request followed by an answered request')
+                'truncated non-empty description, or an ignored non-request followed by an answered request.  Server part: the real '
+                'Server.run() in a thread with 2-3 loopback tcp interfaces (free ports, also tcp://0), 2-4 rounds with scripted '
+                'restarts, ports taken by somebody else in restart_hook; per round the ports served (connect + *IDN?), '
+                'server.interfaces, the responder\'s ports, the responders still running and the ports in answers over loopback UDP '
+                'are judged (announced subset of served); non-trivial = an interface failed to start in a round after a restart')
     # corpus first
     cases = []
     cdir = os.path.join(ctx.verif, 'corpus', 'C19')
     if os.path.isdir(cdir):
         for fn in sorted(os.listdir(cdir)):
             c = json.load(open(os.path.join(cdir, fn)))
-            cases.append(('corpus', [], c['case']))
+            if c['case'].get('kind') != 'server':
+                cases.append(('corpus', [], c['case']))
     cases += generate_cases(ctx)
 
     # the implementation, then one driver batch
@@ -621,11 +740,27 @@ def run(ctx):
     if unexpected:
         res.notes.append(f'decoding raised classes outside the trusted list: {sorted(unexpected)}')
     res.notes.append(f'exception classes raised by the decoding of generated datagrams: {sorted(exc_classes)}')
+    run_server_part(ctx, res)
+    left = [t.name for t in threading.enumerate() if t is not threading.main_thread() and t.is_alive()]
+    res.notes.append(f'threads alive after the server part: {left}')
     return res
+
+
+def replay_server(ctx, case):
+    obs, v = evaluate_server(ctx, case)
+    for i, r in enumerate(x for x in obs['rounds'] if not x.get('ended')):
+        print(f'round {i}   :', {k: r[k] for k in ('blocked', 'configured', 'reported', 'served', 'listener', 'live')})
+        print('  answers :', sorted(set(r['answers'] or [])), '(ports named in answers over loopback UDP)')
+        print('  model   :', v['model'][i] if i < len(v['model']) else None)
+        print('  judge   :', v['verdicts'][i])
+    print('signatures:', [s for s, _ in v['sigs']])
+    return 1 if v['sigs'] else 0
 
 
 def replay(ctx, rp):
     case = rp['case']
+    if case.get('kind') == 'server':
+        return replay_server(ctx, case)
     obs, v = evaluate(ctx, case)
     if v is None:
         print('construction raised', obs['construct_error'])
